@@ -82,6 +82,33 @@ def apply_edit(obj, e, layout=1):
     return "set:%s.%s" % (type(mod).__name__, label)
 
 
+def abort_synth_saves(obj, v):
+    """Save attempts of a loaded Synth cut short at every write index / abandoned after every chunk."""
+    n_chunks = sum(1 for _ in obj.chunks())
+    if v & 1:
+        for at in reversed(range(0, 3 * n_chunks, max(1, 3 * n_chunks // 64))):
+            ctx = Ctx([{"kind": ("write_eio", "write_enospc", "write_cancel")[at % 3], "at": at}])
+            out = simio.SimFile(ctx, 0, b"", "arg", "w")
+            ctx.streams.append(out)
+            try:
+                obj.write_to(out)
+            except (KeyboardInterrupt, HarnessTimeout):
+                raise
+            except BaseException as e:
+                if not ctx.fired and not env.raised_in_rv(e):
+                    raise
+        return "aborted_synth_save_sweep"
+    for cut in reversed(range(0, n_chunks, max(1, n_chunks // 64))):
+        gen = obj.chunks()
+        for _ in range(cut + 1):
+            if next(gen, None) is None:
+                break
+        if (v >> 1) & 1:
+            gen.close()
+        del gen
+    return "abandoned_synth_writer_sweep"
+
+
 def execute(case):
     violations = []
     probes = {}
@@ -112,7 +139,14 @@ def execute(case):
                 except Exception as e:
                     probes["presave_failed:" + type(e).__name__] = probes.get("presave_failed:" + type(e).__name__, 0) + 1
                     break
-                outs = [apply_edit(obj, e, case.get("layout", 1)) for e in op["edits"]]
+                outs = []
+                if op.get("abort_first") is not None and isinstance(obj, Project):
+                    # before the edits: save attempts of the loaded object that are cut short at every write index
+                    # (or writers abandoned after every chunk) - the save that counts is the one after the edits
+                    outs.append(builder.Session(obj, layout=case.get("layout", 1)).apply({"k": "bad", "kind": builder.BAD_KINDS.index("aborted_save_sweep" if op["abort_first"] & 1 else "abandoned_writer_sweep"), "m": 0, "v": op["abort_first"] >> 1}))
+                elif op.get("abort_first") is not None:
+                    outs.append(abort_synth_saves(obj, op["abort_first"]))
+                outs += [apply_edit(obj, e, case.get("layout", 1)) for e in op["edits"]]
                 builder.normalise_metamodules(obj)
                 s_post = snapshot.snapshot(obj)
                 changed = [p for p in set(s_pre) | set(s_post) if s_pre.get(p, ABSENT) != s_post.get(p, ABSENT)]
@@ -228,6 +262,8 @@ def generate(seed, i, tier="quick", spec=None):
             else:
                 edits.append(dict(gen_edit(r), s=r.randrange(100000)))
         ops.append({"k": "edit", "edits": edits})
+        if r.random() < 0.2:
+            ops[-1]["abort_first"] = r.getrandbits(30)
     noise.sprinkle(r, ops)
     return {"property": PROPERTY, "world": "store-from-files", "layout": 2, "ops": ops}
 
